@@ -1,7 +1,7 @@
 SPECIFICATION Spec
 CONSTANTS
-  MaxGrid = 24
-  MaxProc = 32
+  MaxGrid = 16
+  MaxProc = 16
   SharedSet <- BothShared
   SerialRule = "bins"
 INVARIANTS Covers Once SquareOffDiagonal ConflictFree BinsMonotone PassCount Emit
